@@ -64,6 +64,8 @@ def value_doc(t, v, cfg):
     k = t['k']
     if k == 'prim':
         return leaf_doc(t['p'], v[1], cfg['fam'], cfg.get('rawas', 'str'))
+    if k == 'enum':
+        return v[1].encode('utf8') if cfg['fam'] in PACKED and cfg.get('rawas', 'str') == 'bin' else v[1]
     if k == 'attr':
         return value_doc(t['of'], v, cfg)
     if k == 'arr':
@@ -125,6 +127,8 @@ def value_read(t, x, cfg):
     k = t['k']
     if k == 'prim':
         return leaf_read(t['p'], x)
+    if k == 'enum':
+        return leaf_read('Uuid', x)          # (read as plain text: the name of the value)
     if k == 'attr':
         return value_read(t['of'], x, cfg)
     if k == 'arr':
@@ -262,6 +266,8 @@ def to_instance(gen, t, v, memo=None):
         return ([x[:1], x[1:]] if len(x) >= 2 else [x]) if t['p'] == 'ByteArray' else x
     if k == 'attr':
         return to_instance(gen, t['of'], v, memo)
+    if k == 'enum':
+        return getattr(gen.cls(S.texpr(t)), v[1])
     if k == 'arr':
         return [to_instance(gen, t['of'], x, memo) for x in v[1]]
     key = json.dumps(v, sort_keys=True)
